@@ -449,8 +449,11 @@ DEFECTS = {
               {"BPF_ATOMIC stores into RN pkt is not allowed"}, None),
     # r0 holds whatever the program (or the generator, as a temporary) put
     # there before the hash-map variable was read
-    KF_R0: ("hash-read", {SCALAR, "RN invalid mem access 'pkt_end'"},
-            seam_r0),
+    # (a pointer to a smaller map value inside a Dict lookup body: then the
+    # load through it is out of bounds)
+    KF_R0: ("hash-read", {SCALAR, "RN invalid mem access 'pkt_end'",
+                          "RN min value is outside of the allowed memory "
+                          "range"}, seam_r0),
     KF_DICT: ("dict-call", {SCALAR}, seam_park),
     KF_REOWN: ("helper-restore",
                {SCALAR, "RN invalid mem access 'pkt_end'", "RN !read_ok",
@@ -1770,8 +1773,8 @@ BUILDERS = {
 # driver
 # ====================================================================
 STRIDES = {
-    "quick": dict(c01=8, c02=4, c03=4, c04=16, c07=8, c08=40, c08k2=4),
-    "thorough": dict(c01=5, c02=4, c03=2, c04=8, c07=3, c08=4),
+    "quick": dict(c01=10, c02=5, c03=5, c04=20, c07=10, c08=40, c08k2=4),
+    "thorough": dict(c01=6, c02=4, c03=2, c04=10, c07=4, c08=4),
 }
 
 
